@@ -37,6 +37,13 @@ def generate(tier, rng):
         blanks = rng.random() < 0.85
         mn = mx = None
         u = rng.random()
+        if rng.random() < 0.06:
+            # annotation that lies before 0 (a span counted from an event at time 0), written out to 0 or as it is
+            g = iogen.shift_dtg(g, -(g["xmax"] + rng.choice([0, 0, 7, DEN])))
+            if rng.random() < 0.6:
+                cases.append({"op": "prep", "g": g, "blanks": blanks, "mn": None, "mx": rng.choice([0, 0, g["xmax"]]), "thr": rng.choice(THRS),
+                              "scale": ["dyadic", K]})
+                continue
         if u < 0.15:
             mn = rng.choice([0, 0, -DEN, 5, g["xmin"], g["xmin"] + tmax // 2])
         if 0.1 < u < 0.3:
